@@ -5,6 +5,20 @@ HERE = os.path.dirname(os.path.dirname(os.path.abspath(__file__)))
 ALL = ["C%02d" % i for i in range(1, 21)]
 
 CHECKS = {
+ "C06": dict(
+  category="model_checking",
+  text="JsonSchema.tla: Emit(i) is the abstract schema document (description kind, per-property type/pattern/default/description, "
+       "required set), SchemaOK the abstract counterpart of the statement's validity and consistency clauses, Parse reads the "
+       "interface back; TLC checks Valid and RoundTrip on the ideal rules and their as-built weakenings with the listed "
+       "deviations, over all interfaces of 0..2 JSON-representable parameters x prose present/absent x return present/absent. "
+       "Binding: every dumped interface, plus seeded compositions of 3..8 parameters, is emitted by the real emitter, serialised, "
+       "and judged with the external jsonschema package (draft 2020-12 meta-schema, each default validated against its own "
+       "property schema, pattern acceptance of members and near-misses) and by the required <=> non-Optional clause; the real "
+       "parser reads it back and the result is compared with the interface (Literal members as a set).",
+  design_ref="DESIGN.md section 4, C06",
+  note="Trusted: the jsonschema package installed offline into /verif/.deps by setup_cmd; gamma.",
+  technique="TLA+ model of schema emission/validity/parse, TLC exhaustive, every behaviour replayed through the real emitter, an "
+            "external validator and the real parser"),
  "C04": dict(
   category="model_checking",
   text="Exec.tla models Emit_f as the abstract artefact the emitter writes (class body entries, signature entries with the forced "
